@@ -268,13 +268,15 @@ void faulted_run(const Plan& plan, const Spec& s, const Outcome& golden, const s
   if (fired) sim::count(o.completed ? "c15.probe.fault_absorbed" : "c15.probe.fault_reported");
 
   // ConstPool documents its gap bookkeeping as optional ("if this failed nothing really happened, just the gap won't be
-  // visible"): a lost gap makes a later constant land at another (valid) offset, so the pool layout - and with it the
-  // output - may legitimately differ from the failure-free run. Whether such a pool is still right is C19's question.
+  // visible") and registering the halves/quarters of a wide constant for sharing is an optimisation as well: a lost gap
+  // or a missing shared node makes a later constant land at another (valid) offset, so the pool layout - and with it
+  // the output - may legitimately differ from the failure-free run. add() reports the failure of the constant's own
+  // node, so a failure that add() absorbed is one of those two. Whether such a pool is still right is C19's question.
   bool only_optional_faults = fired > 0 && !sim::fired_fault_stacks_overflowed();
   if (o.completed && o.output != golden.output) {
     const auto& stacks = sim::fired_fault_stacks();
     for (size_t i = stacks.size() - size_t(fired <= stacks.size() ? fired : stacks.size()); i < stacks.size() && only_optional_faults; i++)
-      if (!sim::stack_has_function(stacks[i], "ConstPool_addGap")) only_optional_faults = false;
+      if (!sim::stack_has_function(stacks[i], "ConstPool::add")) only_optional_faults = false;   // absorbed inside add(): gap record or shared sub-constant node
   }
   if (o.completed && o.output != golden.output && (only_optional_faults || (fired > 0 && sim::fired_fault_stacks_overflowed()))) {
     sim::count("c15.probe.optional_gap_bookkeeping_absorbed");
